@@ -1,6 +1,6 @@
 (* C01: the inline entry points used by the block layer raise nothing but the two documented exceptions. *)
 From Rimu Require Import Base Unicode Regex RegexSem RegexAnalysis RegexParse Str Types Tables Guards State Inline Block
-  MatchLemmas Placeholder Taint NoRaise.
+  MatchLemmas Placeholder TaintInline NoRaise.
 From Coq Require Import Lia.
 Local Open Scope monad_scope.
 
